@@ -225,6 +225,20 @@ func (s *sys) Ops() []string {
 	return ops
 }
 
+func keyLabel(k ci.PrivKey) string {
+	switch {
+	case k == nil:
+		return "<nil>"
+	case k.Equals(keys[0]):
+		return "key0"
+	case k.Equals(keys[1]):
+		return "key1"
+	case k.Equals(decoyKey):
+		return "decoy-key"
+	}
+	return "unknown-key"
+}
+
 func cls(err error) string {
 	switch {
 	case err == nil:
@@ -416,7 +430,7 @@ func observe(which string, st store, model map[string]int) *eng.Violation {
 			if n.over && which == "fs" && err != nil && k == nil {
 				theRun.Add("over_limit_get_refused", 1)
 			} else if !errors.Is(err, keystore.ErrNoSuchKey) || k != nil {
-				return eng.V("get-absent-mismatch", "Get", fmt.Sprintf("%s Get(%s)=%v,%v want ErrNoSuchKey", which, n.tag, k, err), ft...)
+				return eng.V("get-absent-mismatch", "Get", fmt.Sprintf("%s Get(%s)=%v,%v want ErrNoSuchKey", which, n.tag, keyLabel(k), err), ft...)
 			}
 		}
 	}
@@ -480,7 +494,7 @@ func spec(r *eng.Run) eng.SeqSpec {
 
 func main() {
 	eng.Main("C40", "model_checking", func(r *eng.Run) {
-		r.Rule("BFS over all sequences of Put(name,key)/Delete(name)/Put(\"\") applied to a fresh FSKeystore and a fresh MemKeystore; successor = replay on fresh instances + 1 op; state = name->key maps + listing of the keystore directory; after every transition Has/Get for every pool name and List on both stores (and on a re-opened FSKeystore) are compared with the map model, and the listing+contents of the keystore directory and of its parent (with decoy key files planted where an unencoded name would land) are compared with the expected files; non-trivial = path of >= 2 operations")
+		r.Rule("BFS over all sequences of Put(name,key)/Delete(name)/Put(\"\") applied to a fresh FSKeystore and a fresh MemKeystore, in 2 configurations: observe=each (after every mutation Has/Get of every pool name and List run on the same instances and are compared with the model, so reads are interleaved with writes) and observe=end (no observer before the final check); successor = replay on fresh instances + 1 op; state = name->key maps + listing of the keystore directory; after every transition Has/Get for every pool name and List on both stores (and on a re-opened FSKeystore) are compared with the map model, and the listing+contents of the keystore directory and of its parent (with decoy key files planted where an unencoded name would land) are compared with the expected files; non-trivial = path of >= 2 operations")
 		r.Assume(fmt.Sprintf("scratch filesystem has NAME_MAX=%d (probed at start) and is case-sensitive or not - the encoding is lower-case only", nameMax))
 		r.Assume("names whose encoded file name exceeds NAME_MAX are outside the quantified domain: for them only 'a refused operation changes nothing' and confinement are demanded")
 		if err := probeNameMax(); err != nil {
